@@ -163,7 +163,14 @@ def do_op(pgpy, op, actor, priv, pub, other, enforce, user=None, address=None):
                 return None, None, 'no component can be encrypted to'
             enc = pgpy.PGPMessage.from_blob(bytes(enc))
             dec = actor.decrypt(enc)
-            return comp_index(priv, list(enc.encrypters)[0]), dec.message == 'usage secret', ''
+            # the same with a passphrase recipient next to the key (its session-key packet names no key and comes first): the addressed
+            # component is still found
+            from pgpy.constants import SymmetricKeyAlgorithm
+            sk_ = SymmetricKeyAlgorithm.AES256.gen_key()
+            mixed = comp.encrypt(msg.encrypt('a passphrase too', sessionkey=sk_, cipher=SymmetricKeyAlgorithm.AES256), sessionkey=sk_, cipher=SymmetricKeyAlgorithm.AES256)
+            mixed = pgpy.PGPMessage.from_blob(bytes(mixed))
+            dec2 = actor.decrypt(mixed)
+            return comp_index(priv, list(enc.encrypters)[0]), dec.message == 'usage secret' and dec2.message == 'usage secret', ''
     except Exception as ex:
         return -1, False, repr(ex)[:160]
     return None, None, 'unknown op'
